@@ -1110,3 +1110,439 @@ Proof.
   split; [|split; [exact I2|split; [exact I3|exact Hnf']]].
   split; [exact Hh'|]. split; [exact I2|]. split; [intros _; exact Hall|discriminate].
 Qed.
+
+(* ---------------------------------------------------------------- dot-segment removal *)
+(* the segments left are segments that were there, in order, possibly with empty placeholders *)
+Inductive segsub : list mseg -> list mseg -> Prop :=
+| ss_nil : segsub [] []
+| ss_skip x l1 l2 : segsub l1 l2 -> segsub l1 (x :: l2)
+| ss_keep x l1 l2 : segsub l1 l2 -> segsub (x :: l1) (x :: l2)
+| ss_blank n l1 l2 : segsub l1 l2 -> segsub ({| sg_text := []; sg_blk := None; sg_node := n |} :: l1) l2.
+
+Lemma segsub_refl l : segsub l l.
+Proof. induction l; constructor; assumption. Qed.
+Lemma segsub_app a a' b b' : segsub a a' -> segsub b b' -> segsub (a ++ b) (a' ++ b').
+Proof.
+  intros H. induction H; intros Hb; cbn [app];
+    [exact Hb|apply ss_skip; auto|apply ss_keep; auto|apply ss_blank; auto].
+Qed.
+Lemma segsub_weaken b c : sublist b c -> forall a, segsub a b -> segsub a c.
+Proof.
+  induction 1 as [|x l1 l2 H IH|x l1 l2 H IH]; intros a Ha.
+  - exact Ha.
+  - apply ss_skip. apply IH. exact Ha.
+  - remember (x :: l1) as xl eqn:Exl. induction Ha as [|y k1 k2 Hk IHk|y k1 k2 Hk IHk|n k1 k2 Hk IHk].
+    + discriminate Exl.
+    + injection Exl as -> ->. apply ss_skip. apply IH. exact Hk.
+    + injection Exl as -> ->. apply ss_keep. apply IH. exact Hk.
+    + apply ss_blank. apply IHk. exact Exl.
+Qed.
+Lemma segsub_blocks a b : segsub a b -> sublist (flat_map seg_blk a) (flat_map seg_blk b).
+Proof.
+  induction 1; cbn [flat_map].
+  - constructor.
+  - eapply sublist_trans; [apply sublist_app_r|exact IHsegsub].
+  - apply sublist_app; [apply sublist_refl|exact IHsegsub].
+  - exact IHsegsub.
+Qed.
+Lemma segsub_owned a b : segsub a b -> forallb seg_owned b = true -> forallb seg_owned a = true.
+Proof.
+  induction 1; cbn [forallb]; intros Hb.
+  - reflexivity.
+  - apply andb_prop in Hb. apply IHsegsub, Hb.
+  - apply andb_prop in Hb. destruct Hb as [H1 H2]. rewrite H1. apply IHsegsub, H2.
+  - apply IHsegsub, Hb.
+Qed.
+
+Definition blank_state (owned : bool) (sg : mseg) (s : mstate) : mstate := snd (blank_seg owned sg s).
+Lemma blank_seg_eq owned sg s :
+  blank_seg owned sg s = ({| sg_text := []; sg_blk := None; sg_node := sg_node sg |}, blank_state owned sg s).
+Proof. reflexivity. Qed.
+Lemma blank_state_le owned sg s : st_le s (blank_state owned sg s).
+Proof.
+  unfold blank_state, blank_seg. cbn [snd]. destruct owned; [|apply st_le_refl].
+  destruct (sg_text sg); [apply st_le_refl|]. destruct (sg_blk sg); [apply free_blk_le|apply bad_free_le].
+Qed.
+Lemma drop_seg_le owned sg s : st_le s (drop_seg owned sg s).
+Proof.
+  unfold drop_seg. eapply st_le_trans; [|apply free_blk_le]. destruct owned; [|apply st_le_refl].
+  destruct (sg_text sg); [apply st_le_refl|]. destruct (sg_blk sg); [apply free_blk_le|apply bad_free_le].
+Qed.
+
+Ltac sle :=
+  repeat first [ apply st_le_refl
+               | (eapply st_le_trans; [|apply drop_seg_le])
+               | (eapply st_le_trans; [|apply blank_state_le])
+               | (eapply st_le_trans; [|apply push_alloc_le]) ].
+Ltac sublist_solve :=
+  cbn [rev]; rewrite <- ?app_assoc; cbn [app];
+  try (apply sublist_app; [apply sublist_refl|]);
+  repeat first [ apply sublist_refl | apply sl_nil | apply sl_cons | apply sl_skip ].
+Ltac segsub_solve :=
+  cbn [rev]; rewrite <- ?app_assoc; cbn [app];
+  try (apply segsub_app; [apply segsub_refl|]);
+  repeat first [ apply segsub_refl | apply ss_nil | apply ss_keep | apply ss_blank | apply ss_skip ].
+
+Lemma rds_walk_m_nf rel host abs owned rest : forall kept s, nofault s ->
+  exists segs' s', rds_walk_m rel host abs owned kept rest s = (true, segs', s')
+    /\ map sg_text segs' = rds_walk rel host abs (map sg_text kept) (map sg_text rest)
+    /\ segsub segs' (rev kept ++ rest) /\ st_le s s'.
+Proof.
+  induction rest as [|w nxt IH]; intros kept s Hnf.
+  - exists (rev kept), s. cbn [rds_walk_m rds_walk map]. rewrite map_rev, app_nil_r.
+    split; [reflexivity|]. split; [reflexivity|]. split; [apply segsub_refl|apply st_le_refl].
+  - cbn [rds_walk_m rds_walk map].
+    Ltac rds_rec IH Hnf s0 :=
+      match goal with
+      | |- context [rds_walk_m _ _ _ _ ?k ?r ?s1] =>
+        let segs' := fresh "segs'" in let s' := fresh "s'" in
+        let E := fresh "E" in let V := fresh "V" in let S := fresh "S" in let L := fresh "L" in
+        assert (st_le s0 s1) as L by sle;
+        destruct (IH k s1 (st_le_nofault _ _ L Hnf)) as (segs' & s' & E & V & S & L');
+        exists segs', s'; rewrite E; split; [reflexivity|];
+        split; [rewrite V; cbn [map]; reflexivity|];
+        split; [eapply segsub_weaken; [|exact S]; sublist_solve|eapply st_le_trans; [exact L|exact L']]
+      end.
+    Ltac rds_leaf :=
+      rewrite ?blank_seg_eq;
+      eexists; eexists; split; [reflexivity|];
+      split; [cbn [map rev sg_text app]; repeat (progress (rewrite ?map_app, ?map_rev; cbn [map rev sg_text app])); reflexivity|];
+      split; [segsub_solve|sle].
+    destruct (seg_dot (sg_text w)) eqn:Ed; [|destruct (seg_dotdot (sg_text w)) eqn:Edd].
+    + destruct kept as [|p kk]; destruct nxt as [|n1 nn]; cbn [map andb];
+        rewrite ?andb_false_r, ?andb_true_r; cbn [andb].
+      * destruct host; rds_leaf.
+      * destruct (rel && has_colon (sg_text n1)); rds_rec IH Hnf s.
+      * rds_leaf.
+      * rds_rec IH Hnf s.
+    + destruct kept as [|p [|pp kk]]; destruct nxt as [|n1 nn]; cbn [map andb];
+        rewrite ?andb_false_r, ?andb_true_r; cbn [andb].
+      * destruct rel; [rds_rec IH Hnf s|]. destruct abs; rds_leaf.
+      * destruct rel; rds_rec IH Hnf s.
+      * destruct (rel && seg_dotdot (sg_text p)); [rds_rec IH Hnf s|]. destruct abs; rds_leaf.
+      * destruct (rel && seg_dotdot (sg_text p)); rds_rec IH Hnf s.
+      * destruct (rel && seg_dotdot (sg_text p)); [rds_rec IH Hnf s|].
+        rewrite (alloc_nf _ _ _ Hnf). rds_leaf.
+      * destruct (rel && seg_dotdot (sg_text p)); rds_rec IH Hnf s.
+    + rds_rec IH Hnf s.
+Qed.
+
+Lemma set_m_segs_same m : set_m_segs (m_segs m) m = m.
+Proof. destruct m; reflexivity. Qed.
+
+Lemma remove_dot_segments_m_nf rel owned m s : nofault s ->
+  exists segs' s', remove_dot_segments_m rel owned m s = (true, set_m_segs segs' m, s')
+    /\ erase (set_m_segs segs' m) = remove_dot_segments rel (erase m)
+    /\ segsub segs' (m_segs m) /\ st_le s s'.
+Proof.
+  intros Hnf. unfold remove_dot_segments_m, remove_dot_segments.
+  change (pathSegs (erase m)) with (map sg_text (m_segs m)).
+  destruct (m_segs m) as [|sg r] eqn:Es.
+  - assert (set_m_segs [] m = m) as Hm by (rewrite <- Es; apply set_m_segs_same).
+    exists [], s. rewrite Hm. cbn [map]. split; [reflexivity|]. split; [reflexivity|].
+    split; [constructor|apply st_le_refl].
+  - destruct (rds_walk_m_nf rel (m_host_set m) (m_abs m) owned (sg :: r) [] s Hnf) as (segs' & s' & E & V & S & L).
+    rewrite E. exists segs', s'. split; [reflexivity|]. split; [|split; [exact S|exact L]].
+    change (erase (set_m_segs segs' m)) with (set_pathSegs (map sg_text segs') (erase m)).
+    rewrite V. reflexivity.
+Qed.
+
+Lemma fix_empty_trail_m_nf m s :
+  exists segs' s', fix_empty_trail_m m s = (set_m_segs segs' m, s')
+    /\ erase (set_m_segs segs' m) = fix_empty_trail_segment (erase m)
+    /\ segsub segs' (m_segs m) /\ st_le s s'.
+Proof.
+  unfold fix_empty_trail_m, fix_empty_trail_segment.
+  change (pathSegs (erase m)) with (map sg_text (m_segs m)).
+  change (is_host_set (erase m)) with (m_host_set m).
+  assert (exists s', (m, s) = (set_m_segs (m_segs m) m, s')
+            /\ erase (set_m_segs (m_segs m) m) = erase m /\ segsub (m_segs m) (m_segs m) /\ st_le s s') as Hsame.
+  { exists s. rewrite set_m_segs_same. split; [reflexivity|]. split; [reflexivity|]. split; [apply segsub_refl|apply st_le_refl]. }
+  destruct (negb (m_host_set m)).
+  - destruct (m_segs m) as [|sg [|sg2 r]] eqn:Es; cbn [map].
+    + destruct Hsame as (s' & A & B & C & D). exists [], s'. split; [exact A|split; [exact B|split; [exact C|exact D]]].
+    + destruct (sg_text sg) eqn:Et.
+      * exists [], (free_blk (sg_node sg) s). split; [reflexivity|]. split; [reflexivity|].
+        split; [repeat constructor|apply free_blk_le].
+      * destruct Hsame as (s' & A & B & C & D). exists [sg], s'. split; [exact A|split; [exact B|split; [exact C|exact D]]].
+    + destruct Hsame as (s' & A & B & C & D). exists (sg :: sg2 :: r), s'.
+      split; [exact A|]. split; [|split; assumption]. rewrite B. destruct (sg_text sg); reflexivity.
+  - destruct Hsame as (s' & A & B & C & D). exists (m_segs m), s'. split; [exact A|split; [exact B|split; [exact C|exact D]]].
+Qed.
+
+Lemma fix_pct_nil : fix_pct [] = [].
+Proof. reflexivity. Qed.
+
+Lemma norm_segs_malloc_nf rest : forall acc s, nofault s ->
+  exists segs' s', norm_segs_malloc cs acc rest s = (true, rev acc ++ segs', s')
+    /\ map sg_text segs' = map fix_pct (map sg_text rest)
+    /\ forallb seg_owned segs' = true /\ st_le s s'
+    /\ NoDup (flat_map seg_blk segs')
+    /\ Forall (fun b => ms_next s <= b < ms_next s') (flat_map seg_blk segs').
+Proof.
+  induction rest as [|sg r IH]; intros acc s Hnf.
+  - exists [], s. cbn [norm_segs_malloc]. rewrite app_nil_r. split; [reflexivity|]. split; [reflexivity|].
+    split; [reflexivity|]. split; [apply st_le_refl|]. split; constructor.
+  - cbn [norm_segs_malloc]. destruct (sg_text sg) as [|c x] eqn:Et.
+    + destruct (IH (sg :: acc) s Hnf) as (segs' & s' & E & V & O & L & ND & F).
+      exists (sg :: segs'), s'. rewrite E. cbn [rev]. rewrite <- app_assoc. cbn [app].
+      split; [reflexivity|]. cbn [map forallb flat_map]. rewrite V, O, Et. unfold seg_owned, seg_blk. rewrite Et.
+      cbn [app andb]. repeat split; try assumption; apply L.
+    + rewrite (alloc_nf _ _ _ Hnf).
+      destruct (IH ({| sg_text := fix_pct (c :: x); sg_blk := Some (ms_next s); sg_node := sg_node sg |} :: acc)
+                   (push_alloc false (tlen (c :: x) * cs) s)
+                   (st_le_nofault _ _ (push_alloc_le _ _ _) Hnf)) as (segs' & s' & E & V & O & L & ND & F).
+      exists ({| sg_text := fix_pct (c :: x); sg_blk := Some (ms_next s); sg_node := sg_node sg |} :: segs'), s'.
+      rewrite E. cbn [rev]. rewrite <- app_assoc. cbn [app].
+      split; [reflexivity|]. cbn [map forallb flat_map sg_text]. rewrite V, O, Et.
+      unfold seg_owned at 1, seg_blk at 1 3. cbn [sg_text sg_blk is_some blk_list andb].
+      destruct L as [L1 L2]. rewrite push_alloc_next in *. cbn [ms_plan push_alloc] in L1.
+      split; [reflexivity|]. split; [destruct (fix_pct (c :: x)); reflexivity|]. split; [split; [exact L1|lia]|].
+      assert (Forall (fun b => ms_next s <= b < ms_next s') (flat_map seg_blk segs')) as F'
+        by (eapply Forall_impl; [|exact F]; cbn; intros; lia).
+      destruct (fix_pct (c :: x)); cbn [app]; [split; assumption|]. split.
+      * constructor; [|exact ND]. intros Hi. rewrite Forall_forall in F. specialize (F _ Hi). lia.
+      * constructor; [lia|exact F'].
+Qed.
+
+(* ---------------------------------------------------------------- normalisation of a borrowed object *)
+Definition n_host (mask : N) : stage := fun m done s =>
+  if bit mask M_HOST then
+    match t_val (m_ipFuture m) with
+    | Some _ =>
+      match norm_text cs false lowercase (m_ipFuture m) s with
+      | (Some t, s') => (Some (set_m_hostText {| t_val := t_val t; t_blk := None |} (set_m_ipFuture t m),
+                               N.lor done B_HOST), s')
+      | (None, s') => (None, s')
+      end
+    | None =>
+      match t_val (m_hostText m), m_ip4 m, m_ip6 m with
+      | Some _, None, None =>
+        match norm_text cs false (fun x => lowercase_except_pct (fix_pct x)) (m_hostText m) s with
+        | (Some t, s') => (Some (set_m_hostText t m, N.lor done B_HOST), s')
+        | (None, s') => (None, s')
+        end
+      | _, _, _ => (Some (m, done), s)
+      end
+    end
+  else (Some (m, done), s).
+
+Definition F_host (mask : N) (u : uri) : uri :=
+  if bit mask M_HOST then
+    match ipFuture u with
+    | Some t => let t' := lowercase t in set_hostText (Some t') (set_ipFuture (Some t') u)
+    | None =>
+      match hostText u, ip4 u, ip6 u with
+      | Some t, None, None => set_hostText (Some (lowercase_except_pct (fix_pct t))) u
+      | _, _, _ => u
+      end
+    end
+  else u.
+
+Definition n_path_full (mask : N) (m : muri) (done : N) (s : mstate) : option (muri * N) * muri * N * mstate :=
+  if bit mask M_PATH then
+    let relative := negb (is_some (t_val (m_scheme m))) && negb (m_abs m) && negb (m_host_set m) in
+    let step1 : bool * muri * N * mstate :=
+        let '(ok, segs, s') := norm_segs_malloc cs [] (m_segs m) s in
+        (ok, set_m_segs segs m, if ok then N.lor done B_PATH else done, s') in
+    match step1 with
+    | (false, m1, done1, s1) => (None, m1, done1, s1)
+    | (true, m1, done1, s1) =>
+      let '(ok, m2, s2) := remove_dot_segments_m relative (false || negb (N.land done1 B_PATH =? 0)%N) m1 s1 in
+      if ok then let '(m3, s3) := fix_empty_trail_m m2 s2 in (Some (m3, done1), m3, done1, s3)
+      else (None, m2, done1, s2)
+    end
+  else (Some (m, done), m, done, s).
+
+Definition n_path (mask : N) : stage := fun m done s =>
+  let '(r, _, _, s') := n_path_full mask m done s in (r, s').
+
+Definition F_path (mask : N) (u : uri) : uri :=
+  if bit mask M_PATH then
+    let relative := negb (is_some (scheme u)) && negb (absolutePath u) && negb (is_host_set u) in
+    let u := set_pathSegs (map fix_pct (pathSegs u)) u in
+    fix_empty_trail_segment (remove_dot_segments relative u)
+  else u.
+
+Lemma lowercase_nil : lowercase [] = []. Proof. reflexivity. Qed.
+Lemma lep_fix_nil : (fun x : text => lowercase_except_pct (fix_pct x)) [] = []. Proof. reflexivity. Qed.
+
+Lemma n_host_spec mask : stage_spec (n_host mask) (F_host mask) None.
+Proof.
+  intros lo own m done s (Hnf & HI & Hh & HG) Hsub Ho. unfold n_host, F_host.
+  assert (exists m' done' own' s', (Some (m, done), s) = (Some (m', done'), s') /\ G lo own' m' s' /\ sub done' own'
+            /\ sub own own' /\ erase m' = erase m /\ m_owner m' = false /\ st_le s s' /\ True) as Hsame.
+  { exists m, done, own, s. split; [reflexivity|]. split; [apply mkG; assumption|]. split; [exact Hsub|].
+    split; [apply sub_refl|]. split; [reflexivity|]. split; [exact Ho|]. split; [apply st_le_refl|exact I]. }
+  destruct (bit mask M_HOST); [|exact Hsame].
+  change (ipFuture (erase m)) with (t_val (m_ipFuture m)).
+  change (hostText (erase m)) with (t_val (m_hostText m)).
+  destruct (t_val (m_ipFuture m)) as [x|] eqn:Ef.
+  - destruct (norm_text_nf lowercase (m_ipFuture m) s x Hnf lowercase_nil Ef) as (t' & s' & E & V & O & T & L).
+    rewrite E. eexists; exists (N.lor done (2 ^ 2)), (N.lor own (2 ^ cidx CHost)), s'. split; [reflexivity|].
+    split; [|split; [|split; [|split; [|split; [|split]]]]].
+    + apply mkG; [apply (st_le_nofault _ _ L Hnf)| | |].
+      * eapply (inv_sub lo (set_m_ipFuture t' m) s' _ s' 2 (text_blk {| t_val := t_val t'; t_blk := None |}));
+          [|reflexivity|rewrite text_blk_noblk; apply sublist_nil|lia].
+        eapply (inv_text_step lo m s _ s' 3 (m_ipFuture m) t'); [exact HI|reflexivity|reflexivity|exact T].
+      * intros y Hy. cbn in *. exact Hy.
+      * apply (own_after own CHost m); [exact HG|intros c' Hne; destruct c'; try reflexivity; congruence|].
+        cbn [comp_owned]. unfold host_owned. cbn [m_ipFuture m_hostText set_m_hostText set_m_ipFuture].
+        rewrite V. exact O.
+    + apply sub_lor; exact Hsub.
+    + apply sub_lor_r.
+    + unfold erase. cbn [m_scheme m_userInfo m_hostText m_ip4 m_ip6 m_ipFuture m_portText m_segs m_query m_fragment m_abs m_owner set_m_hostText set_m_ipFuture t_val].
+      rewrite V. reflexivity.
+    + exact Ho.
+    + exact L.
+    + exact I.
+  - change (ip4 (erase m)) with (match m_ip4 m with Some (b, _) => Some b | None => None end).
+    change (ip6 (erase m)) with (match m_ip6 m with Some (b, _) => Some b | None => None end).
+    destruct (t_val (m_hostText m)) as [x|] eqn:Eh; [|destruct (m_ip4 m) as [[? ?]|], (m_ip6 m) as [[? ?]|]; exact Hsame].
+    destruct (m_ip4 m) as [[? ?]|] eqn:E4; [exact Hsame|].
+    destruct (m_ip6 m) as [[? ?]|] eqn:E6; [exact Hsame|].
+    destruct (norm_text_nf (fun x : text => lowercase_except_pct (fix_pct x)) (m_hostText m) s x Hnf lep_fix_nil Eh)
+      as (t' & s' & E & V & O & T & L).
+    rewrite E. eexists; exists (N.lor done (2 ^ 2)), (N.lor own (2 ^ cidx CHost)), s'. split; [reflexivity|].
+    split; [|split; [|split; [|split; [|split; [|split]]]]].
+    + apply mkG; [apply (st_le_nofault _ _ L Hnf)| | |].
+      * eapply (inv_text_step lo m s _ s' 2 (m_hostText m) t'); [exact HI|reflexivity|reflexivity|exact T].
+      * intros y Hy. cbn in Hy. rewrite Ef in Hy. discriminate Hy.
+      * apply (own_after own CHost m); [exact HG|intros c' Hne; destruct c'; try reflexivity; congruence|].
+        cbn [comp_owned]. unfold host_owned. cbn [m_ipFuture m_hostText set_m_hostText].
+        rewrite Ef. exact O.
+    + apply sub_lor; exact Hsub.
+    + apply sub_lor_r.
+    + unfold erase. cbn [m_scheme m_userInfo m_hostText m_ip4 m_ip6 m_ipFuture m_portText m_segs m_query m_fragment m_abs m_owner set_m_hostText t_val].
+      rewrite V. reflexivity.
+    + exact Ho.
+    + exact L.
+    + exact I.
+Qed.
+
+Lemma n_path_spec mask : stage_spec (n_path mask) (F_path mask) None.
+Proof.
+  intros lo own m done s (Hnf & HI & Hh & HG) Hsub Ho. unfold n_path, n_path_full, F_path.
+  destruct (bit mask M_PATH).
+  2:{ exists m, done, own, s. split; [reflexivity|]. split; [apply mkG; assumption|]. split; [exact Hsub|].
+      split; [apply sub_refl|]. split; [reflexivity|]. split; [exact Ho|]. split; [apply st_le_refl|exact I]. }
+  cbv zeta.
+  destruct (norm_segs_malloc_nf (m_segs m) [] s Hnf) as (segs1 & s1 & E1 & V1 & O1 & L1 & ND1 & F1).
+  rewrite E1. cbn [rev app].
+  set (rel := negb (is_some (t_val (m_scheme m))) && negb (m_abs m) && negb (m_host_set m)).
+  set (ow := false || negb (N.land (N.lor done B_PATH) B_PATH =? 0)%N).
+  pose proof (st_le_nofault _ _ L1 Hnf) as Hnf1.
+  destruct (remove_dot_segments_m_nf rel ow (set_m_segs segs1 m) s1 Hnf1) as (segs2 & s2 & E2 & R2 & S2 & L2).
+  rewrite E2.
+  destruct (fix_empty_trail_m_nf (set_m_segs segs2 (set_m_segs segs1 m)) s2) as (segs3 & s3 & E3 & R3 & S3 & L3).
+  rewrite E3.
+  eexists; exists (N.lor done (2 ^ 3)), (N.lor own (2 ^ cidx CPath)), s3. split; [reflexivity|].
+  cbn [m_segs set_m_segs] in S2, S3.
+  split; [|split; [|split; [|split; [|split; [|split]]]]].
+  - apply mkG.
+    + apply (st_le_nofault _ _ L3). apply (st_le_nofault _ _ L2). exact Hnf1.
+    + eapply (inv_sub lo (set_m_segs segs2 (set_m_segs segs1 m)) s2 _ s3 5 (flat_map seg_blk segs3));
+        [|reflexivity|apply segsub_blocks; exact S3|apply L3].
+      eapply (inv_sub lo (set_m_segs segs1 m) s1 _ s2 5 (flat_map seg_blk segs2));
+        [|reflexivity|apply segsub_blocks; exact S2|apply L2].
+      eapply (inv_fresh lo m s _ s1 5 (flat_map seg_blk segs1)); [exact HI|reflexivity|exact ND1|exact F1|apply L1].
+    + exact Hh.
+    + apply (own_after own CPath m); [exact HG|intros c' Hne; destruct c'; try reflexivity; congruence|].
+      cbn [comp_owned m_segs set_m_segs]. eapply segsub_owned; [exact S3|]. eapply segsub_owned; [exact S2|exact O1].
+  - apply sub_lor; exact Hsub.
+  - apply sub_lor_r.
+  - rewrite R3, R2.
+    change (erase (set_m_segs segs1 m)) with (set_pathSegs (map sg_text segs1) (erase m)).
+    rewrite V1. reflexivity.
+  - exact Ho.
+  - eapply st_le_trans; [exact L1|]. eapply st_le_trans; [exact L2|exact L3].
+  - exact I.
+Qed.
+
+(* normalize_m on a borrowed object, written with the stages *)
+Definition normalize_b (mask : N) (m : muri) (s : mstate) : N * muri * mstate :=
+  if (mask =? 0)%N then (URI_SUCCESS, m, s)
+  else
+    let fail (m : muri) (done : N) (s : mstate) :=
+      let '(m', s') := prevent_leakage m done s in (URI_ERROR_MALLOC, m', s') in
+    match n_text (bit mask M_SCHEME) lowercase B_SCHEME m_scheme set_m_scheme m 0%N s with
+    | (None, s) => fail m 0%N s
+    | (Some (m, done), s) =>
+    match n_host mask m done s with
+    | (None, s) => fail m done s
+    | (Some (m, done), s) =>
+    match n_text (bit mask M_USER_INFO) fix_pct B_USER m_userInfo set_m_userInfo m done s with
+    | (None, s) => fail m done s
+    | (Some (m, done), s) =>
+    match n_path_full mask m done s with
+    | (None, mf, donef, s) => fail mf donef s
+    | (Some (m, done), _, _, s) =>
+    match n_text (bit mask M_QUERY) fix_pct B_QUERY m_query set_m_query m done s with
+    | (None, s) => fail m done s
+    | (Some (m, done), s) =>
+    match n_text (bit mask M_FRAGMENT) fix_pct B_FRAG m_fragment set_m_fragment m done s with
+    | (None, s) => fail m done s
+    | (Some (m, done), s) =>
+    match make_owner_engine cs m done s with
+    | (true, m', _, s') => (URI_SUCCESS, set_m_owner true m', s')
+    | (false, m', done', s') => fail m' done' s'
+    end end end end end end end.
+
+Lemma normalize_b_eq mask m s : m_owner m = false -> normalize_m cs mask m s = normalize_b mask m s.
+Proof. intros Ho. unfold normalize_m. rewrite Ho. reflexivity. Qed.
+
+Definition F_text (cond : bool) (f : text -> text) (pget : uri -> option text) (pset : option text -> uri -> uri)
+  (u : uri) : uri := if cond then pset (omap f (pget u)) u else u.
+
+Lemma normalize_unfold mask u :
+  normalize mask u =
+  if (mask =? 0)%N then u
+  else set_owner true
+         (F_text (bit mask M_FRAGMENT) fix_pct fragment set_fragment
+         (F_text (bit mask M_QUERY) fix_pct query set_query
+         (F_path mask
+         (F_text (bit mask M_USER_INFO) fix_pct userInfo set_userInfo
+         (F_host mask
+         (F_text (bit mask M_SCHEME) lowercase scheme set_scheme u)))))).
+Proof. reflexivity. Qed.
+
+Lemma normalize_m_zero m s : normalize_m cs 0 m s = (URI_SUCCESS, m, s).
+Proof. reflexivity. Qed.
+
+Lemma normalize_m_borrowed mask m s :
+  nofault s -> m_owner m = false -> mwf_host m -> text_blocks m = [] -> mask <> 0%N ->
+  exists m' s', normalize_m cs mask m s = (URI_SUCCESS, m', s')
+    /\ erase m' = normalize mask (erase m)
+    /\ m_owner m' = true /\ all_owned m' = true /\ mwf m'
+    /\ NoDup (text_blocks m')
+    /\ Forall (fun b => ms_next s <= b < ms_next s') (text_blocks m')
+    /\ nofault s'.
+Proof.
+  intros Hnf Ho Hh Hb Hmask. rewrite (normalize_b_eq _ _ _ Ho), normalize_unfold. unfold normalize_b.
+  apply N.eqb_neq in Hmask. rewrite Hmask.
+  pose proof (G_start m s Hnf Hh Hb) as G0.
+  destruct (n_scheme_spec (bit mask M_SCHEME) lowercase lowercase_nil _ _ _ _ _ G0 (sub_refl _) Ho)
+    as (m1 & d1 & o1 & s1 & E1 & G1 & S1 & U1 & R1 & W1 & L1 & _).
+  destruct (n_host_spec mask _ _ _ _ _ G1 S1 W1) as (m2 & d2 & o2 & s2 & E2 & G2 & S2 & U2 & R2 & W2 & L2 & _).
+  destruct (n_user_spec (bit mask M_USER_INFO) fix_pct fix_pct_nil _ _ _ _ _ G2 S2 W2)
+    as (m3 & d3 & o3 & s3 & E3 & G3 & S3 & U3 & R3 & W3 & L3 & _).
+  destruct (n_path_spec mask _ _ _ _ _ G3 S3 W3) as (m4 & d4 & o4 & s4 & E4 & G4 & S4 & U4 & R4 & W4 & L4 & _).
+  destruct (n_query_spec (bit mask M_QUERY) fix_pct fix_pct_nil _ _ _ _ _ G4 S4 W4)
+    as (m5 & d5 & o5 & s5 & E5 & G5 & S5 & U5 & R5 & W5 & L5 & _).
+  destruct (n_frag_spec (bit mask M_FRAGMENT) fix_pct fix_pct_nil _ _ _ _ _ G5 S5 W5)
+    as (m6 & d6 & o6 & s6 & E6 & G6 & S6 & U6 & R6 & W6 & L6 & _).
+  destruct (engine_nf _ _ _ _ _ G6 S6 W6) as (m7 & d7 & o7 & s7 & E7 & (Hnf7 & (I1 & I2 & I3) & Hh7 & _) & Hall & R7 & W7 & L7).
+  rewrite E1, E2, E3. unfold n_path in E4.
+  destruct (n_path_full mask m3 d3 s3) as [[[r mf] df] sf]. injection E4 as -> ->.
+  rewrite E5, E6, E7.
+  exists (set_m_owner true m7), s7. split; [reflexivity|].
+  split.
+  { change (erase (set_m_owner true m7)) with (set_owner true (erase m7)).
+    rewrite R7, R6, R5, R4, R3, R2, R1. reflexivity. }
+  split; [reflexivity|]. split; [exact Hall|].
+  assert (ms_next s <= ms_next s6) as Hle.
+  { destruct L1, L2, L3, L4, L5, L6. lia. }
+  split; [|split; [exact I2|split; [|exact Hnf7]]].
+  - split; [exact Hh7|]. split; [exact I2|]. split; [intros _; exact Hall|discriminate].
+  - exact I3.
+Qed.
